@@ -254,13 +254,6 @@ func evalC10q(s []byte) (vs []*Violation, valid bool) {
 	if ip == "" && fp == "" {
 		return // "." alone: not a number
 	}
-	buf := append(append([]byte("<sip:a@b>;q="), s...), "\r\nX"...)
-	var b sipsp.PFromBody
-	_, e := sipsp.ParseOneContact(buf, 0, &b)
-	if e != 0 {
-		add("well-formed-accepted", "q", fmt.Sprintf("verdict %v", e))
-		return
-	}
 	iv := new(big.Int)
 	if ip != "" {
 		iv.SetString(ip, 10)
@@ -271,25 +264,43 @@ func evalC10q(s []byte) (vs []*Violation, valid bool) {
 	}
 	inRange := len(fp) <= 3 && (iv.Sign() == 0 || (iv.Cmp(big.NewInt(1)) == 0 && fv.Sign() == 0))
 	_ = hasDot
-	if inRange {
-		valid = true
-		want := iv.Uint64() * 1000
-		f := fv.Uint64()
-		switch len(fp) {
-		case 1:
-			f *= 100
-		case 2:
-			f *= 10
+	// the q parameter alone, and next to other parameters of the same contact (before / after an expires parameter with
+	// an ordinary or a saturating value, between value-less parameters): what is reported for q does not depend on them
+	for _, lay := range []struct {
+		name, pre, post string
+		exp             uint32
+	}{{"", "", "", 0}, {"/then-expires", "", ";expires=60", 60}, {"/after-expires", ";expires=60", "", 60}, {"/then-x-and-big-expires", "", ";x=1;expires=4294967296", 4294967295},
+		{"/between-flags", ";x", ";lr", 0}, {"/then-expires-in-next-contact", "", " , <sip:c@d>;expires=7", 0}} {
+		buf := []byte("<sip:a@b>" + lay.pre + ";q=" + str + lay.post + "\r\nX")
+		var b sipsp.PFromBody
+		_, e := sipsp.ParseOneContact(buf, 0, &b)
+		if e != 0 && !(e == sipsp.ErrHdrMoreValues && strings.Contains(lay.post, ",")) {
+			add("well-formed-accepted", "q"+lay.name, fmt.Sprintf("verdict %v", e))
+			return
 		}
-		want += f
-		if uint64(b.Q) != want || b.ParamErr != 0 {
-			add("q-exact", "in-range", fmt.Sprintf("q=%s reported as Q=%d ParamErr=%v want %d", s, b.Q, b.ParamErr, want))
+		if b.Expires != lay.exp {
+			add("value-equals-digit-string", "c-expires-next-to-q"+lay.name, fmt.Sprintf("%s: Expires=%d want %d", buf, b.Expires, lay.exp))
 		}
-	} else {
-		if b.Q != 0 {
-			add("q-out-of-range-unset", "frac", fmt.Sprintf("q=%s reported as Q=%d", s, b.Q))
-		} else if b.ParamErr == 0 {
-			add("q-out-of-range-flagged", "frac", fmt.Sprintf("q=%s: Q unset but ParamErr not set", s))
+		if inRange {
+			valid = true
+			want := iv.Uint64() * 1000
+			f := fv.Uint64()
+			switch len(fp) {
+			case 1:
+				f *= 100
+			case 2:
+				f *= 10
+			}
+			want += f
+			if uint64(b.Q) != want || b.ParamErr != 0 {
+				add("q-exact", "in-range"+lay.name, fmt.Sprintf("q=%s reported as Q=%d ParamErr=%v want %d", s, b.Q, b.ParamErr, want))
+			}
+		} else {
+			if b.Q != 0 {
+				add("q-out-of-range-unset", "frac"+lay.name, fmt.Sprintf("q=%s reported as Q=%d", s, b.Q))
+			} else if b.ParamErr == 0 {
+				add("q-out-of-range-flagged", "frac"+lay.name, fmt.Sprintf("q=%s: Q unset but ParamErr not set", s))
+			}
 		}
 	}
 	return
